@@ -243,13 +243,15 @@ CHECKS = {
              "current statement) are Qed-closed for every tree in which statements only sit in list fields. model/Book.v is tied to ast_bookkeeping.py by "
              "exporting the pristine copy of 120+ instrumented programs (hand-written edge cases + generated, several per tracer) and comparing "
              "containing_stmt / parent_stmt / containing_ast of every node; the oracle recomputes nearest/parent statements and the is_outer_stmt / "
-             "is_initial_frame_stmt classifications (with and without exclusion sets) from ast.parse(source). C18_history (model/BookHist.v): for every history of "
+             "is_initial_frame_stmt classifications (with and without exclusion sets) from ast.parse(source). C18_parent_exact: for every well-formed tree with distinct ids and every "
+             "statement of it the parent-statement entry IS the nearest enclosing statement (`lexp`, the lexical definition), absent exactly when none encloses it; C18_outer_exact: "
+             "the outer-statement queries walking up the table answer what walking up the lexical parents answers, for every typing of the nodes and every set of allowed types; "
+             "the model's walk is compared with the real is_outer_stmt / is_initial_frame_stmt for every statement of every exported tree. C18_history (model/BookHist.v): for every history of "
              "instrumentations (whole modules and single functions, any paths, collection on or off) whose new nodes are live objects not yet in the tables, every "
              "bookkeeper whose code can still run has all its ids in the tables and its lines in the line table of its module; stated over book_remove_first regenerated "
              "from AstRewriter.visit; C18_remove_after_add_refuted keeps the witness for the other order. Tied by 100 real histories (K-hist).",
         note="Trusted: Coq kernel + vm_compute; hand transcription (validated by correspondence); the exporter that canonicalises ids to traversal "
-             "indices and leaves out CPython's shared singleton nodes (Load, Add, ...); translator gen_book.py. Outer-statement classification is decided by the oracle, "
-             "not by a theorem; the history theorem assumes ids are not reused within a history (checked on every real history).",
+             "indices and leaves out CPython's shared singleton nodes (Load, Add, ...); translator gen_book.py. The history theorem assumes ids are not reused within a history (checked on every real history).",
         ref="DESIGN.md section 7 C18"),
     "C19": dict(
         technique="Coq proof (a decorated call is a nest of enabled contexts of the context machine: state restored from any reachable state, returning or raising; delivery to exactly the decorator's tracers; code selection lemma) + real module files decorated and called, compared with the original function and with the same function instrumented through exec",
